@@ -22,6 +22,7 @@ import (
 	ocispec "github.com/opencontainers/image-spec/specs-go/v1"
 	oras "oras.land/oras-go/v2"
 	"oras.land/oras-go/v2/content"
+	"oras.land/oras-go/v2/content/file"
 	"oras.land/oras-go/v2/content/memory"
 	"oras.land/oras-go/v2/errdef"
 	"oras.land/oras-go/v2/registry/remote"
@@ -750,6 +751,92 @@ func runCopy(mode string, seed int64, tier string, sc *Script) map[string]any {
 			sc.Op(verdict, "cp cancelled at=%d res=%s", at, res)
 			runs++
 			sc.Count("copy-cancelled:" + res)
+		}
+	}
+	// C01 into a file store whose names are already taken: a second image whose layer reuses a
+	// title for other bytes, for the same bytes, or uses a fresh title.  A nil error means the
+	// whole graph can be fetched back byte for byte.
+	if mode == "C01" {
+		reps := 9
+		if tier == "thorough" {
+			reps = 90
+		}
+		for i := 0; i < reps; i++ {
+			sc.Case("copy-file-titles")
+			sc.NonTrivial()
+			variant := []string{"same-title-other-bytes", "same-title-same-bytes", "fresh-title"}[i%3]
+			mk := func(tag, title string, data []byte) (ocispec.Descriptor, *memory.Store, []ocispec.Descriptor, [][]byte) {
+				src := memory.New()
+				cfg := []byte(fmt.Sprintf("{\"img\":\"%s-%d\"}", tag, i))
+				cd := descOf(ocispec.MediaTypeImageConfig, cfg)
+				ld := descOf(ocispec.MediaTypeImageLayer, data)
+				ld.Annotations = map[string]string{ocispec.AnnotationTitle: title}
+				m := ocispec.Manifest{MediaType: ocispec.MediaTypeImageManifest, Config: cd, Layers: []ocispec.Descriptor{ld}}
+				m.SchemaVersion = 2
+				mb, _ := json.Marshal(m)
+				md := descOf(ocispec.MediaTypeImageManifest, mb)
+				for _, p := range []struct {
+					d ocispec.Descriptor
+					b []byte
+				}{{cd, cfg}, {ld, data}, {md, mb}} {
+					if err := src.Push(ctx, p.d, bytes.NewReader(p.b)); err != nil {
+						panic(err)
+					}
+				}
+				src.Tag(ctx, md, tag)
+				return md, src, []ocispec.Descriptor{cd, ld, md}, [][]byte{cfg, data, mb}
+			}
+			dir := filepath.Join(tmp, fmt.Sprintf("ft%d", i))
+			dst, err := file.New(dir)
+			if err != nil {
+				panic(err)
+			}
+			d1 := []byte(fmt.Sprintf("first-%d", i))
+			_, src1, _, _ := mk("v1", "data.txt", d1)
+			if _, err := oras.Copy(ctx, src1, "v1", dst, "", oras.DefaultCopyOptions); err != nil {
+				panic(fmt.Sprintf("first copy: %v", err))
+			}
+			title2, d2 := "data.txt", []byte(fmt.Sprintf("second-%d", i))
+			switch variant {
+			case "same-title-same-bytes":
+				d2 = d1
+			case "fresh-title":
+				title2 = "other.txt"
+			}
+			_, src2, descs, bodies := mk("v2", title2, d2)
+			_, err = oras.Copy(ctx, src2, "v2", dst, "", oras.DefaultCopyOptions)
+			res := "err"
+			if err == nil {
+				res = "ok"
+				for k, d := range descs {
+					rc, ferr := dst.Fetch(ctx, d)
+					if ferr != nil {
+						res = fmt.Sprintf("ok-but-missing(%s)", d.MediaType)
+						break
+					}
+					b, _ := io.ReadAll(rc)
+					rc.Close()
+					if !bytes.Equal(b, bodies[k]) {
+						res = fmt.Sprintf("ok-but-other-bytes(%s)", d.MediaType)
+						break
+					}
+				}
+				if _, rerr := dst.Resolve(ctx, "v2"); rerr != nil && res == "ok" {
+					res = "ok-but-untagged"
+				}
+			}
+			verdict := "fails-or-complete"
+			if res != "ok" && res != "err" {
+				verdict = res
+			}
+			if variant != "same-title-other-bytes" && res == "err" {
+				verdict = "refused:" + strings.ReplaceAll(err.Error(), " ", "_") // nothing stands in the way of these
+			}
+			sc.Op(verdict, "cp cancelled at=filetitles variant=%s res=%s", variant, res)
+			dst.Close()
+			os.RemoveAll(dir)
+			runs++
+			sc.Count("copy-file-titles:" + variant + ":" + res)
 		}
 	}
 	// C04: the same accounting over ExtendedCopyGraph with several roots (a subject with
